@@ -52,9 +52,9 @@ func (k *Keys) GetCursorPos() (x, y int) {
 
 		// If there is something but not cursor answer, its user input.
 		if len(match) == 0 && len(cursor) > 0 {
-			k.mutex.RLock()
+			k.mutex.Lock()
 			k.buf = append(k.buf, cursor...)
-			k.mutex.RUnlock()
+			k.mutex.Unlock()
 
 			continue
 		}
@@ -66,9 +66,9 @@ func (k *Keys) GetCursorPos() (x, y int) {
 
 		// Anything read along with the answer is user input.
 		if _, remain := k.extractCursorPos(cursor); len(remain) > 0 {
-			k.mutex.RLock()
+			k.mutex.Lock()
 			k.buf = append(k.buf, remain...)
-			k.mutex.RUnlock()
+			k.mutex.Unlock()
 		}
 
 		break
